@@ -112,7 +112,7 @@ def main() -> None:
              "kind_free_text": "Apalache 0.58 symbolic model checker: discharges the inductive invariant of the RFC slice procedure (spec/SliceInd.tla) and the clamping lemma T4c (spec/ClampInd.tla) for unbounded integers; TLC checks the same procedure on small constants and exports its states"},
         ],
         "checks": checks,
-        "notes": "One TLA+ specification (/verif/spec) used in three TLC modes: MC, GEN (spec->code), TRACE (code->spec). See DESIGN.md. `./check EXTRA` (not a listed property) holds coverage beyond the list: TokenStream.tla replayed into tokens.TokenStream, the repository's own test suite trace-validated at the API boundary, and Lexer.tla bound to Lexer.run step by step through the env-guarded hook. `./check selftest` holds the RFC anchors, the corrupted-trace self-test and (thorough) the 336 seeded changes (each must be caught) and the 36 behaviour-preserving changes (each must stay quiet). Also beyond the list, in ./check EXTRA: Parser.tla / Evaluator.tla / Unparse.tla (the implementation-shaped parser and evaluator, refinement theorems T15 / T16 / T2) bound to the code by exported unit texts and pcompile records. Apalache discharges the unbounded slice invariant (SliceInd.tla) and the unbounded clamping lemma (ClampInd.tla) inside C07.",
+        "notes": "One TLA+ specification (/verif/spec) used in three TLC modes: MC, GEN (spec->code), TRACE (code->spec). See DESIGN.md. `./check EXTRA` (not a listed property) holds coverage beyond the list: TokenStream.tla replayed into tokens.TokenStream, the repository's own test suite trace-validated at the API boundary, and Lexer.tla bound to Lexer.run step by step through the env-guarded hook. `./check selftest` holds the RFC anchors, the corrupted-trace self-test and (thorough) the 356 seeded changes (each must be caught) and the 36 behaviour-preserving changes (each must stay quiet). Also beyond the list, in ./check EXTRA: Parser.tla / Evaluator.tla / Unparse.tla (the implementation-shaped parser and evaluator, refinement theorems T15 / T16 / T2) bound to the code by exported unit texts and pcompile records. Apalache discharges the unbounded slice invariant (SliceInd.tla) and the unbounded clamping lemma (ClampInd.tla) inside C07.",
         "not_applicable": na,
     }
     with open(os.path.join(VERIF, "MANIFEST.json"), "w") as fh:
